@@ -156,24 +156,27 @@ func main() {
 	basedir := r.Scratch()
 	total := r.RunSharded(vr.Workers(), func(sh vr.ShardInfo, p *vr.Partial) {
 		dir := fmt.Sprintf("%s/w%d", basedir, sh.Index)
-		for si, sc := range scs {
-			sub := vr.NewPartial()
-			schedmc.Explore(setupFor(sc, dir), opts(sc.name), sh, sub, r.Share(si, len(scs)))
-			for k := range sub.Violations {
-				v := &sub.Violations[k]
-				// canonical: scenario + mechanism (the mechanism alone would merge unrelated hangs)
-				if i := strings.Index(v.Sig, "\n"); i > 0 {
-					v.Sig = v.Sig[:i]
+		var items []schedmc.Item
+		for _, sc := range scs {
+			items = append(items, schedmc.Item{Name: sc.name, Run: func(expired func() bool, sub *vr.Partial) {
+				schedmc.Explore(setupFor(sc, dir), opts(sc.name), sh, sub, expired)
+				for k := range sub.Violations {
+					v := &sub.Violations[k]
+					// canonical: scenario + mechanism (the mechanism alone would merge unrelated hangs)
+					if i := strings.Index(v.Sig, "\n"); i > 0 {
+						v.Sig = v.Sig[:i]
+					}
 				}
-			}
-			p.Merge(sub)
+			}})
 		}
+		schedmc.ExploreAll(r, p, items)
 	})
 	r.RequireOutcomes(total.Card("outcomes"), 4)
 	var names []string
 	for _, sc := range scs {
 		names = append(names, sc.name)
 	}
+	completed := schedmc.Completed(total, names)
 	r.Finish(vr.Coverage{
 		Level:       "model_checking",
 		Evaluations: total.Counters["executions"],
@@ -183,9 +186,9 @@ func main() {
 		States:      total.Counters["steps"],
 		Transitions: total.Counters["steps"],
 		Validated:   total.Counters["executions"],
-		Exhaustive:  !total.TimedOut,
+		Exhaustive:  len(completed) == len(names),
 		Outcomes:    total.Card("outcomes"),
-		Bounds:      map[string]any{"preemption_bound": bound, "scenarios": names, "commit_queue_capacity": 2, "yield_horizon": 200},
+		Bounds:      map[string]any{"preemption_bound": bound, "scenarios": names, "scenarios_enumerated_completely": completed, "commit_queue_capacity": 2, "yield_horizon": 200},
 		Extra:       map[string]any{"schedules": total.Counters["executions"], "max_decisions_per_schedule": total.Counters["max_decisions"]},
 		Assumptions: []string{"instrumented files: db.go, db_write.go, write_request.go, txn.go, utils/ringbuffer.go, utils/watermarker.go, utils/closer.go; LSM/WAL internals are atomic steps", "polling loops (time.Sleep / runtime.Gosched) are fair yields", "real-time based waits are not modelled"},
 	})
